@@ -752,3 +752,34 @@ def outputs_column_by_trigger_rules(c, rule):
                 tgt = n.iter if isinstance(n, ast.comprehension) else n
                 c.guard(rule, tgt, [f'!isinstance({var}, dict)'], f,
                         what='plain iteration only for the list shape;')
+
+
+def special_tasks_family_rules(c, rule):
+    """A family named under [scheduling][special tasks] (sequential,
+    clock-expire, ...) stands for *all* its task members in the full
+    (multiple-inheritance) ancestry: the expansion iterates
+    self.runtime['descendants'][name] and leaves out only sub-families."""
+    sites = c.find('config', 'result.append(_m + extn)')
+    c.floor(rule, 'special-task family expansion (result.append(member + '
+            'extn))', len(sites), 1)
+    for n in sites:
+        f = c.owner(n)
+        lp = n
+        while id(lp) in c.idx.parent and not isinstance(lp, ast.For):
+            lp = c.idx.parent[id(lp)]
+        if not isinstance(lp, ast.For):
+            c.ob(rule, c.key(n, f)[:90] + ' inside a loop over the members',
+                 False, c.where(n, f), '')
+            continue
+        it = resolved(c, f, lp.iter, lp)
+        ok = norm(it) == "self.runtime['descendants'][name]"
+        c.ob(rule, c.key(n, f)[:90] + " for every member in self.runtime["
+             "'descendants'][name]", ok, c.where(lp, f), '' if ok else
+             f'{norm(it)[:100]} — members reached only through a secondary '
+             'parent keep none of the special behaviour')
+        mv = norm(lp.target)
+        c.ob(rule, c.key(n, f)[:90] + ' appends the member', norm(
+            n.args[0]).startswith(f'{mv} + '), c.where(n, f), norm(n.args[0]))
+        c.guard_only(rule, n, [f"!({mv} in self.runtime['descendants'])"],
+                     f, stop=lp, what='only sub-families are skipped;')
+        c.guard(rule, lp, ["name in self.runtime['descendants']"], f)
